@@ -28,6 +28,7 @@ def cases(tier, seed):
     yield from _cases(tier, seed, True)
     yield from _lean(tier, seed)
     yield from _stub(tier, seed)
+    yield from _loops(tier, seed)
 
 
 LEAN = (0., 0.02, 0.1, 0.3, 0.5, 0.7, 0.9, 1.5, 3., 8., 20.)
@@ -69,6 +70,20 @@ def _stub(tier, seed):
                     for es in ([(0, 1), (1, 2)], [(1, 2), (0, 1)], [(1, 0), (2, 1)], [(2, 1), (1, 0)]):
                         yield dict(f=f, lam=lam, pts=pts, name='stub%g/%g/%d/%g' % (lean, h, ns, u[0]),
                                    st=[dict(a=x, b=y, n=(ns if 0 in (x, y) else 4), r=2e-4 * lam) for x, y in es])
+
+
+def _loops(tier, seed):
+    """half loop standing on the plane with both feet (its second foot is on the plane only numerically: sin(pi) = 1.2e-16)
+    against the full loop in free space; quarter arc with a tail against its mirrored pair"""
+    rot, sc, f = geom.variant(seed)
+    lam = geom.C_MININEC / f
+    r = 2e-4 * lam
+    for n in (4, 6):
+        R = 0.0125 * n * lam            # segments of ~0.04 lambda
+        for a1, a2 in ((0., 180.), (180., 0.)):
+            half = dict(kind='arc', n=n, radius=R, ang1=a1, ang2=a2, r=r)
+            full = dict(kind='arc', n=2 * n, radius=R, ang1=a1, ang2=a1 + (360. if a2 > a1 else -360.), r=r)
+            yield dict(f=f, lam=lam, name='halfloop%g-%g-n%d' % (a1, a2, n), gwires=[half], fwires=[full])
 
 
 def _cases(tier, seed, special):
@@ -120,8 +135,8 @@ def pair_case(c):
 
 
 def evaluate(c):
-    gc = ground_case(c)
-    reason = geom.domain(gc, c['lam'], ground=True)
+    gc = ground_case(c) if 'gwires' not in c else dict(f=c['f'], env='ideal', wires=c['gwires'])
+    reason = geom.domain(gc, c['lam'], ground=True) if 'gwires' not in c else None
     if reason:
         return dict(viol=[], skipped='domain:' + reason, evals=0)
     try:
@@ -158,7 +173,7 @@ def evaluate(c):
         tol, cond = geom.cond_tol(g)
         if tol is None:
             continue
-        fr = geom.build(dict(pair_case(c), sources=psrc))
+        fr = geom.build(dict(pair_case(c) if 'fwires' not in c else dict(f=c['f'], env='free', wires=c['fwires']), sources=psrc))
         fr.compute()
         ns += 1
         # currents: conductor half currents of the upper half space
@@ -195,8 +210,8 @@ def evaluate(c):
             if not (x <= t):
                 kind = 'gndfeed' if any(f[0][2] for f in fs) else 'feed'
                 viol.append(('DEV-%s-%s' % (k, kind), '%s deviates %.3g > %.3g, feeds %s, cond %.0f' % (k, x, t, [f[0][0] for f in fs], cond)))
-    und = sorted((e['a'], e['b'], e['n'], round(e['r'], 9)) for e in c['st'])
+    und = sorted((e['a'], e['b'], e['n'], round(e['r'], 9)) for e in c.get('st', []))
     ngnd = sum(1 for p in g0.pulses if p.ground.any())
     return dict(viol=viol[:6], canon=['%s%s|%d' % (c.get('name', ''), und, i) for i in range(ns)], nontriv=True, trans=2 * ns, traces=ns,
-                evals=2 * ns, dev=worst, outcome='gnd=%d,wires=%d' % (ngnd, len(c['st'])), note=wnote,
+                evals=2 * ns, dev=worst, outcome='gnd=%d,wires=%d' % (ngnd, len(c.get('st', c.get('gwires', [])))), note=wnote,
                 skips={'gain-undefined(net power<5% of sum |P_source|)': nogain} if nogain else None)
